@@ -157,11 +157,23 @@ class AWSElastiCacheHashClient(HashClient):
 
         May useful on error handling during cluster scale down or scale up
         """
+        servers = [normalize_server_spec(server) for server in self._get_nodes_list()]
+
         old_clients = self.clients.copy()
         self.clients.clear()
 
-        for server in self._get_nodes_list():
-            self.add_server(normalize_server_spec(server))
+        for server in servers:
+            self.add_server(server)
+
+        # Nodes that are no longer advertised leave the rotation, together
+        # with their failover bookkeeping.
+        for node in list(self.hasher.nodes):
+            if node not in self.clients:
+                self.hasher.remove_node(node)
+        for table in (self._failed_clients, self._dead_clients):
+            for server in list(table):
+                if self._make_client_key(server) not in self.clients:
+                    del table[server]
 
         for client in old_clients.values():
             client.close()
